@@ -37,6 +37,9 @@ def run():
         for qos in (["reliable"] if quick else ["reliable", "unreliable", "partial"]):
             for k, sc in enumerate(scripts):
                 scs.append(U.to_scenario("C01/%s/%s/%d" % (pol, qos, k), sc, policy=pol, qos=qos))
+        # the same scripts over the JSON wire encoding (WithConnEncoding): payloads, elapsed times, ids and aliases survive it
+        for k, sc in enumerate(scripts[:8] if quick else scripts[:100]):
+            scs.append(U.to_scenario("C01/%s/json/%d" % (pol, k), sc, policy=pol, qos="reliable", conn={"encoding": "json"}))
         # the same scripts against a broker that reports a failure result for every odd-numbered chunk
         for k, sc in enumerate(scripts[:10] if quick else scripts):
             scs.append(U.to_scenario("C01/%s/rejected/%d" % (pol, k), sc, policy=pol, qos="reliable", reject=True))
